@@ -5,7 +5,7 @@
    (regenerated from the live construct objects on every run). *)
 From Coq Require Import String.
 From PV Require Import Base.Outcome Base.Prim Spec.PrimSpec Spec.C04Desc Spec.C04Spec Spec.C04Sem Gen.C04Forms
-                       Model.C04Model Proofs.C04Forms Proofs.C04Header Proofs.C04Abbrev Proofs.C04Entry Proofs.C04Unit Proofs.C04Tree.
+                       Model.C04Model Proofs.C04Forms Proofs.C04Header Proofs.C04Abbrev Proofs.C04Entry Proofs.C04Unit Proofs.C04Tree Proofs.C04Refs Proofs.C04Bridge Proofs.C04Parent Proofs.C04Values.
 From Coq Require Import ZArith List Bool.
 Import ListNotations.
 Open Scope string_scope.
@@ -197,6 +197,32 @@ Theorem C04_dies_flat_exact : forall (u : unit) (pre tail : list Z),
 Proof. exact unit_entries_exact. Qed.
 Print Assumptions C04_dies_flat_exact.
 
+(* resolved values.  DIE._translate_attr_value (the .value of an attribute) for a form code f and raw value:
+   strp / line_strp -> the NUL-terminated string at that offset of .debug_str / .debug_line_str; flag -> truth
+   value; strx* -> .debug_str_offsets[base + i * offset_size] then the string; addrx* -> .debug_addr[base + i *
+   address_size]; loclistx / rnglistx -> base + table[i]; bases from the DW_AT_*_base attributes of the unit's
+   top entry; anything else the raw value.  Whenever the standard's value exists (Spec.C04Sem.resolve = Some),
+   the library returns it. *)
+Theorem C04_value_exact : forall (S : dsections) (U : uctx) (c : cfg) (xs : xsections)
+        (top_attrs : list xattr) (root : list (Z * Z * rawval)) (f : Z) (raw : rawval) (v : value),
+  ctx_match S U c xs -> bases_match top_attrs root ->
+  resolve c xs root f raw = Some v ->
+  translate_attr_value S U top_attrs (dn_form f) raw = Ok v.
+Proof. exact translate_value_exact. Qed.
+Print Assumptions C04_value_exact.
+
+(* for a unit: the values of all attributes of any well-formed entry, in order, with the bases taken from the
+   unit's own top entry *)
+Theorem C04_unit_values_exact : forall (u : unit) (S : dsections) (xs : xsections) (uoff : Z) (d : die) (off : Z) (vs : list value),
+  unit_wf u = true -> sections_match S xs ->
+  let c := u_cfg u in let ds := t_decls (u_table u) in
+  entry_wf c ds (root_fentry d) = true ->
+  resolve_all c xs (root_codes u) (entry_codes c ds (die_code d) (die_vals d)) = map Some vs ->
+  die_values S (expect_unit_ctx u uoff) (x_attrs (root_entry c ds (u_root u) (uoff + header_size u)))
+             (root_entry c ds d off) = Ok vs.
+Proof. exact unit_values_exact. Qed.
+Print Assumptions C04_unit_values_exact.
+
 (* ------------------------------------------------------------------ (4) tiling *)
 (* DESIGN 4.4 T4.  The expected (= decoded, by C04_dies_flat_exact) entries start at cu_die_offset, each one
    starts where the previous one ends, each has positive size, and the last one ends at
@@ -244,6 +270,120 @@ Theorem C04_children_exact : forall (u : unit) (pre tail : list Z) (in_info : bo
         else None).
 Proof. exact unit_children_exact. Qed.
 Print Assumptions C04_children_exact.
+
+(* the same in the vocabulary of the specification the harness compares against (Spec.C04Sem.expect_tree,
+   siblings_wf = the 5th bit of the driver's wf answer): for every node, iter_children of the node's entry =
+   (entries of the expected tree node's children, its terminator) *)
+Theorem C04_children_exact_tree : forall (u : unit) (pre tail : list Z) (in_info : bool) (d : die) (off : Z),
+  unit_wf u = true ->
+  let sec := pre ++ encode_unit u ++ tail in
+  let c := u_cfg u in let ds := t_decls (u_table u) in let M := expect_munit u sec (zlen pre) in
+  siblings_wf c ds in_info (zlen pre) (u_root u)
+              (expect_tree dn_tag dn_at dn_form c ds (u_root u) (zlen pre + header_size u)) = true ->
+  node_at c ds (u_root u) (zlen pre + header_size u) d off ->
+  let n := expect_tree dn_tag dn_at dn_form c ds d off in
+  iter_children M (unit_fuel M) (xn_die n) = Ok (map xn_die (xn_kids n), xn_term n).
+Proof. exact children_exact_tree. Qed.
+Print Assumptions C04_children_exact_tree.
+
+(* the spec's sibling check implies the hypothesis of C04_iter_DIEs_exact / C04_children_exact *)
+Theorem C04_spec_siblings_wf_imp : forall (u : unit) (in_info : bool) (sec : list Z) (off : Z),
+  siblings_wf (u_cfg u) (t_decls (u_table u)) in_info off (u_root u)
+              (expect_tree dn_tag dn_at dn_form (u_cfg u) (t_decls (u_table u)) (u_root u) (off + header_size u)) = true ->
+  unit_sibs_ok u in_info sec off = true.
+Proof. exact spec_siblings_wf_imp. Qed.
+Print Assumptions C04_spec_siblings_wf_imp.
+
+(* every node of the expected tree sits where the flattening puts it: its entry is the expected entry at its
+   offset and its subtree ends after the encoded size of the subtree *)
+Theorem C04_expect_tree_positions : forall c ds d off,
+  xn_die (expect_tree dn_tag dn_at dn_form c ds d off) = root_entry c ds d off /\
+  xn_end (expect_tree dn_tag dn_at dn_form c ds d off) = off + tree_size c ds d.
+Proof. exact expect_tree_pos. Qed.
+Print Assumptions C04_expect_tree_positions.
+
+(* parent_exact: for every node dp (at offp) with children, and every t that is the offset of one of its encoded
+   children or of the null entry closing them, DIE.get_parent() of the entry at t -- the top-down search
+   _search_ancestor_offspring, which at each generation descends into the child with the closest offset not
+   greater than t -- returns the entry at offp; the top entry has no parent *)
+Theorem C04_parent_exact : forall (u : unit) (pre tail : list Z) (in_info : bool) (dp : die) (offp t : Z) (x : xdie),
+  unit_wf u = true ->
+  let sec := pre ++ encode_unit u ++ tail in
+  let c := u_cfg u in let ds := t_decls (u_table u) in let M := expect_munit u sec (zlen pre) in
+  unit_sibs_ok u in_info sec (zlen pre) = true ->
+  node_at c ds (u_root u) (zlen pre + header_size u) dp offp -> d_has_kids ds dp = true ->
+  child_pos c ds dp offp t -> x_off x = t ->
+  get_parent M x = Ok (Some offp).
+Proof. exact unit_parent_exact. Qed.
+Print Assumptions C04_parent_exact.
+
+Theorem C04_parent_of_top : forall (M : munit) (x top : xdie),
+  get_top_DIE M = Ok top -> x_off x = x_off top -> get_parent M x = Ok None.
+Proof. exact parent_of_top. Qed.
+Print Assumptions C04_parent_of_top.
+
+(* ------------------------------------------------------------------ (6) references *)
+(* DESIGN 4.4 T6.  DIE.get_DIE_from_attribute returns the entry that starts at the designated offset
+   (find_entry over the expected = decoded entry list), together with the unit that holds it.
+   Unit-relative forms (ref1/2/4/8/ref_udata; the value is relative to the unit start): *)
+Theorem C04_refs_resolve_unit : forall (u : unit) (pre tail : list Z) (S : dsections) (w : where_) (a : xattr) (v : Z) (d : xdie),
+  unit_wf u = true ->
+  let sec := pre ++ encode_unit u ++ tail in
+  is_unit_ref_form (xa_form a) = true -> xa_raw a = RInt v ->
+  find_entry (expect_dies (u_cfg u) (t_decls (u_table u)) (unit_entries u) (zlen pre + header_size u)) (zlen pre + v) = Some d ->
+  die_from_attribute S w (expect_munit u sec (zlen pre)) a = Ok (w, zlen pre, d).
+Proof. exact unit_ref_exact. Qed.
+Print Assumptions C04_refs_resolve_unit.
+
+(* DW_FORM_ref_addr: an offset into .debug_info; the containing unit is searched from the start of the section
+   (units before it are parsed and skipped, units after it are never looked at), its abbreviation table is
+   loaded, and the entry at the offset is returned *)
+Theorem C04_refs_resolve_ref_addr : forall (S : dsections) (before : list unit) (u : unit) (after : list unit)
+        (w : where_) (M0 : munit) (a : xattr) (raw : Z) (d : xdie),
+  s_info S = encode_section (before ++ u :: after) ->
+  forallb unit_wf (before ++ [u]) = true -> units_in (s_le S) false (before ++ [u]) = true ->
+  table_at (s_abbrev S) u ->
+  let off := zlen (encode_section before) in
+  xa_form a = EName "DW_FORM_ref_addr" -> xa_raw a = RInt raw ->
+  find_entry (expect_dies (u_cfg u) (t_decls (u_table u)) (unit_entries u) (off + header_size u)) raw = Some d ->
+  die_from_attribute S w M0 a = Ok (InInfo, off, d).
+Proof. exact ref_addr_exact. Qed.
+Print Assumptions C04_refs_resolve_ref_addr.
+
+(* DW_FORM_ref_sig8 naming a DWARF 5 type unit (DW_UT_type / DW_UT_split_type) of .debug_info: the entry at
+   unit offset + type_offset of the (last) unit carrying the signature.  [This is the behaviour repaired by
+   /repo commit f90eac4.] *)
+Theorem C04_refs_resolve_sig8_info : forall (S : dsections) (before : list unit) (u : unit) (after types_us : list unit)
+        (w : where_) (M0 : munit) (a : xattr) (sg toff : Z) (d : xdie),
+  s_info S = encode_section (before ++ u :: after) -> s_types S = encode_section types_us ->
+  forallb unit_wf (before ++ u :: after) = true -> units_in (s_le S) false (before ++ u :: after) = true ->
+  forallb unit_wf types_us = true -> units_in (s_le S) true types_us = true ->
+  u_kind u = UKtype sg toff \/ u_kind u = UKsplit_type sg toff ->
+  (forall u', In u' after -> v5_type_sig u' <> Some sg) ->
+  table_at (s_abbrev S) u ->
+  let off := zlen (encode_section before) in
+  xa_form a = EName "DW_FORM_ref_sig8" -> xa_raw a = RInt sg ->
+  find_entry (expect_dies (u_cfg u) (t_decls (u_table u)) (unit_entries u) (off + header_size u)) (off + toff) = Some d ->
+  die_from_attribute S w M0 a = Ok (InInfo, off, d).
+Proof. exact ref_sig8_info_exact. Qed.
+Print Assumptions C04_refs_resolve_sig8_info.
+
+(* DW_FORM_ref_sig8 naming a v4 type unit of .debug_types *)
+Theorem C04_refs_resolve_sig8_types : forall (S : dsections) (info_us before : list unit) (u : unit) (after : list unit)
+        (w : where_) (M0 : munit) (a : xattr) (sg toff : Z) (d : xdie),
+  s_info S = encode_section info_us -> s_types S = encode_section (before ++ u :: after) ->
+  forallb unit_wf info_us = true -> units_in (s_le S) false info_us = true ->
+  forallb unit_wf (before ++ u :: after) = true -> units_in (s_le S) true (before ++ u :: after) = true ->
+  u_kind u = UKtypes4 sg toff ->
+  (forall u', In u' info_us -> v5_type_sig u' <> Some sg) ->
+  (forall u', In u' after -> types4_sig u' <> Some sg) ->
+  table_at (s_abbrev S) u ->
+  let off := zlen (encode_section before) in
+  xa_form a = EName "DW_FORM_ref_sig8" -> xa_raw a = RInt sg ->
+  find_entry (expect_dies (u_cfg u) (t_decls (u_table u)) (unit_entries u) (off + header_size u)) (off + toff) = Some d ->
+  die_from_attribute S w M0 a = Ok (InTypes, off, d).
+Proof. exact ref_sig8_types_exact. Qed.
+Print Assumptions C04_refs_resolve_sig8_types.
 
 (* ------------------------------------------------------------------ (7) several units *)
 (* DESIGN 4.4 T7.  Units of mixed version / format / address size / kind laid end to end: iter_CUs (iter_TUs
@@ -306,3 +446,29 @@ Example C04_ex_siblings :
   unit_sibs_ok ex_unit2 true ([1; 2; 3] ++ encode_unit ex_unit2 ++ [4]) 3 = true /\
   zlen (encode_unit ex_unit2) = 28.
 Proof. vm_compute. intuition. Qed.
+
+(* the reference of the first child of ex_unit2 (unit-relative 24, unit at 3) designates an entry: its sibling *)
+Example C04_ex_ref_target :
+  exists d, find_entry (expect_dies (u_cfg ex_unit2) (t_decls ex_table2) (unit_entries ex_unit2) (3 + header_size ex_unit2))
+                       (3 + 24) = Some d /\ x_code d = 9 /\ x_size d = 3.
+Proof. eexists. vm_compute. intuition. Qed.
+
+(* in ex_unit2 (at offset 3) the grandchild at 24 and the null entry at 26 are child positions of the first
+   child (at 19), which is a node of the tree *)
+Example C04_ex_positions :
+  let c := u_cfg ex_unit2 in let ds := t_decls ex_table2 in
+  exists k1 k2 g, die_kids (u_root ex_unit2) = [k1; k2] /\ die_kids k1 = [g] /\
+    node_at c ds (u_root ex_unit2) (3 + header_size ex_unit2) k1 19 /\ d_has_kids ds k1 = true /\
+    child_pos c ds k1 19 24 /\ child_pos c ds k1 19 26.
+Proof.
+  cbv zeta. do 3 eexists. split; [reflexivity|]. split; [reflexivity|]. split; [|split; [reflexivity|split]].
+  - eapply node_below; [reflexivity| |apply node_self]. apply (kid_here _ _ _ _ 19).
+  - eapply cp_kid. apply (kid_here _ _ _ _ 24).
+  - apply cp_term. reflexivity.
+Qed.
+
+(* resolvable index forms: a strx1 attribute through DW_AT_str_offsets_base of the root *)
+Example C04_ex_resolve :
+  resolve (mkcfg true false false 5) (mkxsections [120; 0; 97; 98; 0] [] [9; 9; 2; 0; 0; 0] [] [] [])
+          [(AT_str_offsets_base, 0x17, RInt 2)] 0x25 (RInt 0) = Some (VBytes [97; 98]).
+Proof. vm_compute. reflexivity. Qed.
